@@ -376,10 +376,21 @@ func checkC17(c *core.Ctx) error {
 	c.Analysed["job_submissions"] = len(sites)
 
 	for _, js := range sites {
-		cons := fmt.Sprintf("%s job@%s", js.fn.Name, shortPos(c, js.call.Pos()))
+		owner := js.fn
 		if js.fn.Lit != nil && js.fn.Parent() != nil {
-			cons = fmt.Sprintf("%s job@%s", js.fn.Parent().Name, shortPos(c, js.call.Pos()))
+			owner = js.fn.Parent()
 		}
+		ord := 0
+		for _, o := range sites {
+			oo := o.fn
+			if o.fn.Lit != nil && o.fn.Parent() != nil {
+				oo = o.fn.Parent()
+			}
+			if oo == owner && o.call.Pos() < js.call.Pos() {
+				ord++
+			}
+		}
+		cons := fmt.Sprintf("%s job#%d", owner.Name, ord)
 		if js.lit == nil {
 			c.Unknown("C17.R1", cons, "job body is a function literal", js.call.Pos(), "the job is not a function literal: its captured state cannot be enumerated")
 			continue
@@ -425,7 +436,7 @@ func checkC17(c *core.Ctx) error {
 				return true
 			}
 			used := mentionsObj(info, fs.Body, o)
-			c.Check(used, "C17.R7", F.Name, fmt.Sprintf("loop over %s@%s uses its index", id.Name, shortPos(c, fs.Pos())), fs.Pos(),
+			c.Check(used, "C17.R7", F.Name, fmt.Sprintf("loop over %s#%d uses its index", id.Name, loopOrdinal(F.Body, fs)), fs.Pos(),
 				"the body of the loop over "+id.Name+" never mentions "+id.Name+": every iteration does the same thing, so the per-thread or per-component elements the loop is meant to visit are not all reset/merged")
 			return true
 		})
@@ -1347,7 +1358,7 @@ func checkThreadFields(c *core.Ctx) {
 		if fv.Pkg() != nil {
 			owner = core.RelPkg(fv.Pkg().Path())
 		}
-		cons := fmt.Sprintf("field %s.%s@%s", owner, fv.Name(), shortPos(c, fv.Pos()))
+		cons := fmt.Sprintf("field %s.%s of %s", owner, fv.Name(), structOwnerName(c, fv))
 		c.Check(bad == token.NoPos && nAssign > 0, "C17.R5", cons, "thread-indexed field is sized by NumberOfThreads()", bad,
 			func() string {
 				if nAssign == 0 {
@@ -1453,7 +1464,16 @@ func checkPoolErrors(c *core.Ctx, e *eff.Engine) {
 			if _, isSubmit := submitMethods[m]; !isSubmit && m != "Wait" {
 				return true
 			}
-			cons := fmt.Sprintf("%s %s@%s", f.Name, m, shortPos(c, call.Pos()))
+			ord := 0
+			ast.Inspect(f.Body, func(x ast.Node) bool {
+				if c2, ok := x.(*ast.CallExpr); ok && c2.Pos() < call.Pos() {
+					if m2, _ := poolCall(info, c2); m2 == m {
+						ord++
+					}
+				}
+				return true
+			})
+			cons := fmt.Sprintf("%s %s#%d", f.Name, m, ord)
 			parent := stack[len(stack)-2]
 			switch p := parent.(type) {
 			case *ast.ExprStmt:
@@ -1692,4 +1712,39 @@ func injectiveInParam(g *eff.Func) bool {
 		return (isK(be.X) && freeOfK(be.Y)) || (isK(be.Y) && freeOfK(be.X))
 	}
 	return false
+}
+
+func loopOrdinal(body ast.Node, fs *ast.ForStmt) int {
+	n := 0
+	ast.Inspect(body, func(m ast.Node) bool {
+		if l, ok := m.(*ast.ForStmt); ok && l.Pos() < fs.Pos() {
+			n++
+		}
+		return true
+	})
+	return n
+}
+
+// structOwnerName: the struct type that declares field fv.
+func structOwnerName(c *core.Ctx, fv *types.Var) string {
+	for _, p := range c.LibPkgs() {
+		if p.Types != fv.Pkg() {
+			continue
+		}
+		sc := p.Types.Scope()
+		for _, nm := range sc.Names() {
+			tn, ok := sc.Lookup(nm).(*types.TypeName)
+			if !ok {
+				continue
+			}
+			if st, ok := tn.Type().Underlying().(*types.Struct); ok {
+				for i := 0; i < st.NumFields(); i++ {
+					if st.Field(i) == fv {
+						return nm
+					}
+				}
+			}
+		}
+	}
+	return "?"
 }
